@@ -885,7 +885,31 @@ def r8_deadline_provenance(ctx):
         ctx.check(ok, 'interval-%s' % m, 'Interval::%s re-arms the interval at %s' % (m, text), rs[0].where(), [show(f.expr_operand(s.args[1], s.b, 'T'))[:120] for s in rs])
 
 
+COARSE_TIME = ('as_micros', 'as_millis', 'as_secs', 'as_secs_f32', 'as_secs_f64', 'subsec_micros', 'subsec_millis', 'mul_f32', 'mul_f64',
+               'div_f32', 'div_f64', 'div_duration_f32', 'div_duration_f64', 'eq_approx')
+
+
+def r9_timer_resolution(ctx, rule='C05.R9'):
+    """timers are kept and compared at the resolution deadlines have: nowhere in the timer driver, Sleep, Timeout or Interval is a deadline
+    or the clock read in a coarser unit (two deadlines inside one millisecond are two instants)"""
+    ctx.set_rule(rule)
+    P = ctx.P
+    mods = ('des::time::driver::', '<des::time::driver::', 'des::time::sleep::', '<des::time::sleep::', 'des::time::timeout::', '<des::time::timeout::',
+            'des::time::interval::', '<des::time::interval::')
+    n = 0
+    for f in P.fn_list:
+        if not f.key.startswith(mods) or f.kind == 'promoted' or f.name == 'fmt':
+            continue
+        for s in f.calls():
+            if 'time::Duration::' in s.name or s.name.startswith('des::time::SimTime::'):
+                n += 1
+                ctx.check(s.name.split('::')[-1] not in COARSE_TIME, 'coarse-deadline-readout:%s' % f.key.split('::')[-1].replace('{closure#', 'closure').rstrip('}'),
+                          'a deadline or the clock is never read in a unit coarser than its resolution', s.where(), s.name)
+    ctx.floor('time operations in the timer modules', n, 5)
+
+
 def run(ctx):
+    r9_timer_resolution(ctx)
     r1_next_wakeup(ctx)
     r2_ready_wake_agreement(ctx)
     r3_wakeup_scheduling(ctx)
